@@ -47,3 +47,15 @@ func VerifExcluder(mode NavigationExclusionMode, doc *html.Node) func(*html.Node
 	}
 	return newExclusionChecker(mode, doc).shouldExclude
 }
+
+// VerifPatternSources returns the source text of the compiled class/id patterns
+// of navigation.go, by field name.
+func VerifPatternSources() map[string]string {
+	return map[string]string{
+		"nav":      navigationPatterns.nav.String(),
+		"header":   navigationPatterns.header.String(),
+		"footer":   navigationPatterns.footer.String(),
+		"sidebar":  navigationPatterns.sidebar.String(),
+		"excluded": navigationPatterns.excluded.String(),
+	}
+}
